@@ -251,6 +251,12 @@ Definition padd_src (a b : poly) : poly :=
   if gen_add_assign_over_rhs then fold_left (fun acc mc => insert_src gen_add_assign_ins (fst mc) (snd mc) acc) b a else a.
 Definition psub_src (a b : poly) : poly :=
   if gen_sub_assign_over_rhs then fold_left (fun acc mc => insert_src gen_sub_assign_ins (fst mc) (snd mc) acc) b a else a.
+(** operator-=(Operator const& op) called with an operand that may be the object itself: [aliased] stands for the test &op == this of
+    the generated guard (an aliased operand has, in particular, the value of *this). With the guard the aliased call clears the map and
+    returns; a call with a distinct object runs the loop. Without the guard the aliased call would erase, through erase_zero_monomial,
+    the entry BOOST_FOREACH is visiting (undefined behaviour, not modelled): the leaf lemma gen_sub_alias_guard_is_model requires it *)
+Definition psub_assign_src (aliased : bool) (a b : poly) : poly :=
+  if gen_sub_assign_alias_guard && aliased then [] else psub_src a b.
 (** unary minus *)
 Definition pneg_src (a : poly) : poly := map (fun mc => (fst mc, gen_neg_coeff K kopp (snd mc))) a.
 (** operator*=(MelemType) *)
